@@ -93,6 +93,12 @@ class TableFamily(Family):
         if op == "w.add":
             return {"C08"}
         if op == "w.fin":
+            a, b = res[idx]["real"], res[idx]["model"]
+            if a.startswith("file ") and b.startswith("file ") and len(a) == len(b):
+                ha, hb = a[5:], b[5:]
+                # bytes differ only inside the nine counter fields of the trailer: that is C10's business alone
+                if len(ha) >= 1024 and ha[:-1024] == hb[:-1024] and ha[-1024 + 144:] == hb[-1024 + 144:]:
+                    return {"C10"}
             return {"C09", "C01", "C10"}
         if op == "w.prefix":
             return {"C09"}
@@ -712,3 +718,149 @@ reg("C06", ["sorter"], "input sequences (random, sorted, reversed, all-equal, di
     ["qsort returns a key-sorted permutation", "the chunk round trip through a temporary snappy table is the identity (C01)", "mkstemp/unlink/mmap-after-unlink semantics (OS contract)", "pooled chunk writers deliver the same chunks in some order (C13)"])
 reg("C20", ["wa"], "a writer (compression none, 0..7 entries, tiny blocks) under scripted write(2) outcomes: exhaustive single faults (EINTR, short 1, short 3, zero, EIO) at every call position, random multi-fault scripts up to 60 outcomes; child process per run; final bytes, per-call sizes and termination compared with the model; non-trivial = the case contains both completed and stopped runs",
     ["asserts are enabled (the repository's flags never define NDEBUG)", "write(2) returns at most the requested size"])
+
+
+def count_block_entries(raw):
+    """number of entries in a raw (uncompressed) block with a 32-bit restart array"""
+    if len(raw) < 8:
+        return 0
+    nr = int.from_bytes(raw[-4:], "little")
+    end = len(raw) - 4 - 4 * nr
+    off = 0; n = 0
+    while off < end:
+        vals = []
+        for _ in range(3):
+            v, k = F.varint(raw, off)
+            if v is None:
+                return n
+            vals.append(v); off += k
+        off += vals[1] + vals[2]; n += 1
+    return n
+
+
+def flip_bits(b, positions):
+    b = bytearray(b)
+    for p in positions:
+        b[p // 8] ^= 1 << (p % 8)
+    return bytes(b)
+
+
+class CorruptFamily(Family):
+    """C12: every block of a written file is covered by a checksum that is actually compared"""
+    name = "corrupt"
+    def cases(self, pid, seed, tier, mult, stats):
+        for c in self.corpus(pid):
+            yield c
+        self.stats = stats
+        for i in range(budget(tier, 25, 400, mult)):
+            yield ("corrupt:%d:%d" % (seed, i), ["#gen-corrupt %d %d %s" % (seed, i, tier)])
+    def run(self, exe, lines):
+        if not lines or not lines[0].startswith("#gen-corrupt"):
+            res = vlib.run_script(exe, lines)
+            return self.canon(res)
+        _, seed, i, tier = lines[0].split(" ")
+        rng = Rng(int(seed) * 7000003 + int(i) * 29)
+        st = getattr(self, "stats", F.Stats())
+        tl = F.gen_table_case(rng, st, mode="sorted", small=True, nkeys=rng.pick([1, 3, 6, 12, 20]))
+        tl = [l for l in tl if l.startswith(("reset", "w."))]
+        tl[1] = " ".join(a for a in tl[1].split(" ") if not a.startswith("pre=")) + " pre=-"
+        res1 = vlib.run_script(exe, tl)
+        fin = [r for r in res1 if r["req"].startswith("w.fin") and r["real"].startswith("file ")]
+        if not fin:
+            return res1
+        good = unhx(fin[0]["real"].split(" ")[1])
+        ctab = [s[1:] for r in res1 for s in r.get("side", []) if s.startswith("#ctab ")]
+        comp = int(dict(a.split("=", 1) for a in tl[1].split(" ")[2:])["comp"])
+        keys = [unhx(r["req"].split(" ")[2]) for r in res1 if r["req"].startswith("w.add") and r["real"] == "ok"]
+        # layout
+        L = len(good); io = int.from_bytes(good[L - 512:L - 504], "little")
+        frames = []; off = 0
+        while off < io:
+            ln, n = F.varint(good, off); frames.append((off, n, ln)); off += n + 4 + ln
+        iln, inn = F.varint(good, io)
+        raws = [unhx(c.split(" ")[2]) for c in ctab] if comp != 0 else [good[o + n + 4:o + n + 4 + ln] for o, n, ln in frames]
+        counts = [count_block_entries(r) for r in raws]
+        self.meta = {"total": len(keys), "counts": counts, "muts": []}
+        script = ["reset"] + ctab + ["blob 1 " + hx(good), "tool.verify 1", "rv.read 1 verify=1"]
+        bid = 2
+        nmut = 14 if tier == "quick" else 60
+        for _ in range(nmut):
+            tgt = rng.below(len(frames) + 1)
+            o, n, ln = frames[tgt] if tgt < len(frames) else (io, inn, iln)
+            nbits = 8 * (ln + 4)               # checksum field (4 bytes) then stored bytes, in file order
+            kind = rng.pick(["1bit", "2bit", "3bit", "burst", "field"])
+            if kind == "burst":
+                start = rng.below(max(1, nbits - 32)); pat = rng.below((1 << 32) - 1) + 1
+                pos = [start + b for b in range(32) if (pat >> b) & 1 and start + b < nbits]
+                # keep the burst inside the stored bytes or inside the field (a CRC burst in the codeword's own bit order)
+                if pos and not (all(p < 32 for p in pos) or all(p >= 32 for p in pos)):
+                    pos = [p for p in pos if p >= 32] or pos
+            elif kind == "field":
+                pos = sorted(set(rng.below(32) for _ in range(rng.pick([1, 2, 5]))))
+            else:
+                pos = sorted(set(rng.below(nbits) for _ in range(int(kind[0]))))
+            st.bump("corrupt_" + kind); st.bump("corrupt_target_" + ("index" if tgt == len(frames) else "data"))
+            bad = bytearray(good)
+            seg = flip_bits(bytes(bad[o + n:o + n + 4 + ln]), pos)
+            bad[o + n:o + n + 4 + ln] = seg
+            script.append("blob %d %s" % (bid, hx(bytes(bad))))
+            script.append("tool.verify %d" % bid)
+            script.append("rv.read %d verify=1" % bid)
+            before = sum(counts[:tgt]) if tgt < len(frames) else 0
+            if tgt < len(frames) and counts[tgt] > 0 and before < len(keys):
+                script.append("rv.read %d verify=1 get=%s" % (bid, hx(keys[before])))
+            self.meta["muts"].append({"bid": str(bid), "target": "index" if tgt == len(frames) else tgt, "before": before, "kind": kind})
+            bid += 1
+        return self.canon(vlib.run_script(exe, script))
+    def canon(self, res):
+        for r in res:
+            for side in ("real", "model"):
+                if r[side] == "verify none exit=1":
+                    r[side] = "verify FAILED exit=1"
+        return res
+    def oracle(self, res):
+        fails = []
+        meta = getattr(self, "meta", None)
+        if not meta:
+            return fails
+        muts = {m["bid"]: m for m in meta["muts"]}
+        for i, r in enumerate(res):
+            t = r["req"].split(" "); real = r["real"]
+            if "asan" in real or "crash" in real:
+                fails.append(("C12", "sanitizer report / crash on a damaged file: " + real, i)); continue
+            if t[0] == "tool.verify":
+                if t[1] == "1":
+                    if real != "verify OK exit=0":
+                        fails.append(("C12", "mtbl_verify on an intact written file: " + real, i))
+                elif t[1] in muts and real.startswith("verify OK"):
+                    fails.append(("C12", "mtbl_verify reported OK on a file with a %s error in %s block" % (muts[t[1]]["kind"], muts[t[1]]["target"]), i))
+            elif t[0] == "rv.read":
+                f = real.split(" ")
+                if t[1] == "1":
+                    if not (f[3] == "eof" and int(f[1]) == meta["total"]):
+                        fails.append(("C12", "verifying reader on an intact file: " + real, i))
+                elif t[1] in muts:
+                    m = muts[t[1]]
+                    if any(a.startswith("get=") for a in t):
+                        if int(f[1]) != 0 or f[3] != "abort":
+                            fails.append(("C12", "get() on a key of the damaged block: %s (an entry decoded from that block was returned, or the reader did not stop)" % real, i))
+                    elif m["target"] == "index":
+                        if f[3] != "abort" or int(f[1]) != 0:
+                            fails.append(("C12", "verifying reader opened a file with a damaged index block: " + real, i))
+                    else:
+                        if f[3] != "abort" or int(f[1]) != m["before"]:
+                            fails.append(("C12", "verifying reader on a file with damaged data block %s returned %s entries and ended with %s (expected %d then a stop)" % (m["target"], f[1], f[3], m["before"]), i))
+        return fails
+    def tie_props(self, res, idx):
+        return {"C12"}
+    def nontrivial(self, pid, lines, res):
+        return any(r["real"].endswith("abort") for r in res) and any(r["real"] == "verify FAILED exit=1" for r in res)
+
+FAMILIES["corrupt"] = CorruptFamily
+
+reg("C05", ["merger"], PROPS["C04"]["rule"] + "; get/prefix/range lookups on merger sources and next/seek histories on all four iterator kinds incl. seek to the key just returned, backward seeks after exhaustion, seeks onto keys that need merging",
+    ["sources sorted; dupsort a total preorder", "seek targets at or after the start of the iterator's range (as the property requires; the hypothesis is necessary: seek_below_start_witness)", "the assembled history theorem is for unbounded iterators; bounded kinds are covered per operation (C05_seek, C05_inv_next) and by C05_lookup"])
+reg("C07", ["fileset"], "fileset histories: setfile rewrites (add/remove/reorder names, relative and absolute paths, a missing file, a file that is not a table) with strictly increasing mtimes via utimensat, create/delete table files, harness-owned CLOCK_MONOTONIC (clock_gettime shim) advanced in whole seconds, reload / reload_now on up to three handles (dup with other filename/reader filters and intervals 0,3,10,never), up to six open iterators of all kinds, seeks, closes, destroys in legal orders; under ASan; three-way agreement: real code, Lean machine, independent python machine; non-trivial = >= 2 setfile versions, a reload/reload_now and a dup",
+    ["setfile edits change (ino, mtime); clock readings are positive and distinct; a setfile never lists a name twice; a name denotes the same table while it stays listed; handles outlive their iterators", "stat/mtime granularity, mmap-after-delete and real time are OS contracts (partial)"])
+reg("C12", ["corrupt"], "tables from the real writer (all six codecs, tiny blocks), then 14 (quick) / 60 (thorough) damaged copies each: 1, 2, 3 flipped bits and bursts <= 32 bits (LSB-first bit order) inside one block's stored bytes or checksum field, data blocks and the index block alike; mtbl_verify built from the tree run on every copy, a verifying reader drained in a child process (entries returned before it stops), get() on a key of the damaged block; non-trivial = the batch contains both aborting readers and FAILED verify runs",
+    ["asserts are enabled", "the two-/three-bit guarantee needs blocks shorter than 256 MiB (period of the CRC-32C generator)", "file-order bursts straddling the checksum field and the stored bytes are covered only when they are bursts in codeword order"])
